@@ -264,6 +264,13 @@ class _Expr(ast.NodeTransformer):
         if isinstance(n.test, ast.Constant) and isinstance(n.test.value, bool):
             self.changed = True
             return n.body if n.test.value else n.orelse
+        # D[K] if K in D else V   ->  D.get(K, V)
+        t = n.test
+        if isinstance(t, ast.Compare) and len(t.ops) == 1 and isinstance(t.ops[0], (ast.In, ast.NotIn)):
+            hit, miss = (n.body, n.orelse) if isinstance(t.ops[0], ast.In) else (n.orelse, n.body)
+            if isinstance(hit, ast.Subscript) and ast.dump(hit.value) == ast.dump(t.comparators[0]) and ast.dump(hit.slice) == ast.dump(t.left):
+                self.changed = True
+                return ast.copy_location(ast.Call(func=ast.Attribute(value=hit.value, attr="get", ctx=ast.Load()), args=[hit.slice, miss], keywords=[]), n)
         return n
 
     def _class_identity(self, n: ast.Compare):
@@ -392,6 +399,34 @@ def _bind_row(targets: ast.AST, row: ast.AST) -> Optional[dict]:
     return None
 
 
+def _match_chain(s: ast.Match) -> Optional[ast.stmt]:
+    """match NAME: case C1: A  case C2 | C3: B  case _: D     ->   if NAME == C1: A  elif NAME == C2 or NAME == C3: B  else: D
+    (literal patterns only, no guards, no captures)"""
+    if not isinstance(s.subject, ast.Name):
+        return None
+    arms = []
+    default: list = []
+    for i, c in enumerate(s.cases):
+        if c.guard is not None:
+            return None
+        pats = c.pattern.patterns if isinstance(c.pattern, ast.MatchOr) else [c.pattern]
+        if len(pats) == 1 and isinstance(pats[0], ast.MatchAs) and pats[0].pattern is None and pats[0].name is None:
+            if i != len(s.cases) - 1:
+                return None
+            default = c.body
+            continue
+        if not all(isinstance(p, ast.MatchValue) and isinstance(p.value, ast.Constant) and not isinstance(p.value.value, float) for p in pats):
+            return None
+        tests = [ast.Compare(left=copy.deepcopy(s.subject), ops=[ast.Eq()], comparators=[p.value]) for p in pats]
+        arms.append((tests[0] if len(tests) == 1 else ast.BoolOp(op=ast.Or(), values=tests), c.body))
+    if not arms:
+        return None
+    node: list = default
+    for test, body in reversed(arms):
+        node = [ast.If(test=test, body=body, orelse=node)]
+    return ast.fix_missing_locations(ast.copy_location(node[0], s))
+
+
 class _Stmt:
     def __init__(self, tables: Tables) -> None:
         self.t = tables
@@ -444,7 +479,9 @@ class _Stmt:
                         if dbind is not None:
                             dflt = self.block([_SubNames(dbind).visit(copy.deepcopy(x)) for x in rest])
                         else:
-                            dflt = [ast.copy_location(ast.Raise(exc=ast.Call(func=ast.Name(id="KeyError", ctx=ast.Load()), args=[copy.deepcopy(key)], keywords=[]), cause=None), s)]
+                            miss = ast.Raise(exc=ast.Call(func=ast.Name(id="KeyError", ctx=ast.Load()), args=[copy.deepcopy(key)], keywords=[]), cause=None)
+                            miss._table_miss = True  # type: ignore[attr-defined]
+                            dflt = [ast.copy_location(miss, s)]
                         orelse = dflt
                         for (k, _), b in reversed(list(zip(rows, binds))):
                             body = [_SubNames(b).visit(copy.deepcopy(x)) for x in rest]
@@ -538,6 +575,10 @@ class _Stmt:
                 c2.body = self.block(c.body)
                 cs.append(c2)
             new.cases = cs
+            chain = _match_chain(new)
+            if chain is not None:
+                self.changed = True
+                new = chain
         s2 = new if new is not None else s
         # `if k in TABLE: <chain ending in raise KeyError(k)> else: E`  ->  the chain ending in E
         if isinstance(s2, ast.If) and len(s2.body) == 1 and isinstance(s2.body[0], ast.If) and isinstance(s2.test, ast.BoolOp) \
@@ -558,6 +599,65 @@ class _Stmt:
         return s2
 
 
+def _eq_keys(test: ast.AST) -> Optional[tuple[str, set]]:
+    """(subject dump, {constant dumps}) of `k == c` / `k == c1 or k == c2 ..`"""
+    parts = test.values if isinstance(test, ast.BoolOp) and isinstance(test.op, ast.Or) else [test]
+    subj = None
+    keys = set()
+    for p in parts:
+        if not (isinstance(p, ast.Compare) and len(p.ops) == 1 and isinstance(p.ops[0], ast.Eq) and isinstance(p.comparators[0], ast.Constant)):
+            return None
+        d = ast.dump(p.left)
+        if subj is not None and d != subj:
+            return None
+        subj = d
+        keys.add(ast.dump(p.comparators[0]))
+    return (subj, keys) if subj is not None else None
+
+
+def _prune_covered_misses(stmts: list, known: dict) -> bool:
+    """Inside `if k == a or k == b:` a chain over the same `k` that handles a and b cannot reach its failed-lookup arm: drop it.
+    (`known`: subject dump -> keys one of which the subject equals here.)"""
+    changed = False
+    known = dict(known)
+    for s in stmts:
+        if isinstance(s, ast.If):
+            # a chain whose failed-lookup arm is unreachable
+            ek = _eq_keys(s.test)
+            if ek is not None and ek[0] in known:
+                keys = set()
+                node: Optional[ast.AST] = s
+                last = None
+                while isinstance(node, ast.If):
+                    e2 = _eq_keys(node.test)
+                    if e2 is None or e2[0] != ek[0]:
+                        break
+                    keys |= e2[1]
+                    last = node
+                    node = node.orelse[0] if len(node.orelse) == 1 else None
+                if last is not None and len(last.orelse) == 1 and getattr(last.orelse[0], "_table_miss", False) and keys >= known[ek[0]]:
+                    last.orelse = []
+                    changed = True
+            inner = dict(known)
+            if ek is not None:
+                inner[ek[0]] = ek[1]
+            changed = _prune_covered_misses(s.body, inner) or changed
+            changed = _prune_covered_misses(s.orelse, known) or changed
+        else:
+            for fld in ("body", "orelse", "finalbody"):
+                v = getattr(s, fld, None)
+                if isinstance(v, list) and v and isinstance(v[0], ast.stmt) and not isinstance(s, (ast.FunctionDef, ast.AsyncFunctionDef, ast.ClassDef)):
+                    changed = _prune_covered_misses(v, known) or changed
+            for h in getattr(s, "handlers", []) or []:
+                changed = _prune_covered_misses(h.body, known) or changed
+        # a store to a name of a subject ends what is known about it
+        stored = {n.id for n in ast.walk(s) if isinstance(n, ast.Name) and isinstance(n.ctx, ast.Store)}
+        if stored:
+            for k in [k for k in known if any(f"id='{n}'" in k for n in stored)]:
+                del known[k]
+    return changed
+
+
 def canonicalise(model, f) -> bool:
     """Rewrite f.node in place (a copy); returns True when something changed."""
     tables = Tables(model, f)
@@ -574,6 +674,7 @@ def canonicalise(model, f) -> bool:
         st.changed = st.changed or st2.changed
     if not (ex.changed or st.changed):
         return False
+    _prune_covered_misses(node.body, {})
     ast.fix_missing_locations(node)
     f.__dict__.setdefault("raw_node", f.node)
     f.node = node
